@@ -482,6 +482,9 @@ func (cs *contractSet) loadFile(path, pkgPath string) error {
 				cur.ghostAt = append(cur.ghostAt, ghostUpdate{where: where, name: strings.TrimSpace(asg[0]), expr: e, text: asg[1]})
 			case "expect_fail":
 				cur.expectFail[rest] = true
+			case "dead":
+				// dead <cover label>: this return / loop body is unreachable code (the vacuity cover is expected unsat)
+				cur.expectFail["cover:"+rest] = true
 			default:
 				return fail(fmt.Errorf("unknown directive %q", word))
 			}
